@@ -40,7 +40,7 @@ def has_props(pid):
     return os.path.exists(os.path.join(lv.COQ, 'Props', pid + '.v'))
 
 
-PARTIAL_THEOREMS = ('C07', 'C16')
+PARTIAL_THEOREMS = ('C03', 'C07', 'C15', 'C16')
 
 
 def level_for(pid):
